@@ -194,12 +194,11 @@ func c12(c *Ctx) {
 			row   int
 		}
 		rowSeals := map[string][]rowSeal{}
-		for _, b := range S.Blocks {
-			for _, in := range b.Instrs {
-				st, ok := in.(*ssa.Store)
-				if !ok {
-					continue
-				}
+		// (stores in S and in the helpers it was split into, each read in its frame)
+		for _, ssite := range core.SplitFind(S, nil, func(in ssa.Instruction) bool { _, ok := in.(*ssa.Store); return ok }) {
+			ssite := ssite
+			ssite.In(func() {
+				st := ssite.Instr.(*ssa.Store)
 				if _, isFA := st.Addr.(*ssa.FieldAddr); !isFA {
 					// "*row.value = sealed" with row.value = &clone.F
 					if _, isLoad := st.Addr.(*ssa.UnOp); isLoad {
@@ -217,7 +216,7 @@ func c12(c *Ctx) {
 							}
 						})
 					}
-					continue
+					return
 				}
 				root, field := addrFields(st.Addr)
 				if _, isSeal := sealStore(st); isSeal {
@@ -230,12 +229,12 @@ func c12(c *Ctx) {
 					} else {
 						r.Bad("R-C12.3", sname+" seal target "+field, p.Pos(st.Pos()), "sealed bytes are written into an object that is not the clone (the caller's message is mutated or a different object is sealed)")
 					}
-					continue
+					return
 				}
 				if root == clone && core.IsNilConst(st.Val) {
 					clears[field] = append(clears[field], st)
 				}
-			}
+			})
 		}
 		for _, f := range append(append([]string{}, stp.fields...), stp.clear...) {
 			construct := sname + " field " + f
